@@ -231,12 +231,18 @@ func handRun(prop, tier string, c Case, w *Worker) (res Result) {
 				}
 			case "write", "writestring":
 				op.N, op.DSeed = []int{0, 1, 7, 100, 513, 1500}[r.Intn(6)], r.Uint64()
+				if op.N == 0 && !mh.Write {
+					op.N = 1 // zero-length writes without write access are reference-ambiguous (the kernel accepts them)
+				}
 				if mem && mh.Write && !mh.Append && mh.Pos != size() {
 					// memory write cache truncates at the cursor (open finding): only append-at-end writes are generated
 					op = HOp{K: "seek", Off: 0, Wh: 2}
 				}
 			case "writeat":
 				op.N, op.Off, op.DSeed = []int{0, 1, 7, 100, 513}[r.Intn(5)], pickOff(), r.Uint64()
+				if op.N == 0 && !mh.Write {
+					op.N = 1
+				}
 				if mh.Append {
 					continue // os.File refuses WriteAt on O_APPEND handles, in-memory references accept it: reference-ambiguous
 				}
